@@ -512,7 +512,7 @@ var factPreds = map[string]bool{
 	"is": true, "notis": true, "nil": true, "nonnil": true, "def": true, "has": true, "lacks": true,
 	"errIs": true, "notErrIs": true, "errAs": true, "notErrAs": true, "inloop": true, "same": true, "zero": true,
 	"literal": true, "fresh": true, "any": true,
-	"member": true, "notmember": true, "all": true, "some": true, "defx": true,
+	"member": true, "notmember": true, "all": true, "some": true, "defx": true, "segs": true,
 }
 
 // Clause: disjunction of alternatives; alternative: conjunction of fact patterns.
@@ -791,6 +791,10 @@ func unify(p, t *Term, b Bind) bool {
 	switch p.K {
 	case "const", "call", "type", "lit", "assert", "conv":
 		if !nameMatches(p.S, t.S) {
+			// a named constant matches a literal of its value
+			if c, ok := t.Obj.(*types.Const); p.K == "const" && ok && c.Val() != nil && (c.Val().ExactString() == p.S || c.Val().String() == p.S) {
+				break
+			}
 			return false
 		}
 	case "store":
